@@ -420,6 +420,49 @@ Proof.
       with true by (symmetry; apply Z.ltb_lt; lia). reflexivity.
 Qed.
 
+(** extending to the duration the samples already have changes nothing *)
+Theorem extend_same : forall (cs : csamples T),
+  extend T zero cs (lenz (cs_amp T cs)) = Some cs.
+Proof.
+  intros [a d p sl o i]. unfold extend. simpl.
+  rewrite Z.sub_diag. simpl. now rewrite !app_nil_r.
+Qed.
+
+(** [SequenceSamples.extend_duration]: every channel is kept, in order, each
+    extended by its own [extend_duration] *)
+Theorem extend_all_spec : forall (css css' : list (csamples T)) n,
+  extend_all T zero css n = Some css' ->
+  Forall2 (fun cs cs' => extend T zero cs n = Some cs') css css'.
+Proof.
+  induction css as [|cs r IH]; intros css' n H; simpl in H.
+  - inversion H. constructor.
+  - destruct (extend T zero cs n) as [c|] eqn:E; [|discriminate].
+    destruct (extend_all T zero r n) as [r'|] eqn:ER; [|discriminate].
+    inversion H; subst. constructor; auto.
+Qed.
+
+Theorem extend_all_keeps_every_channel : forall (css css' : list (csamples T)) n,
+  extend_all T zero css n = Some css' -> length css' = length css.
+Proof.
+  intros css css' n H. apply extend_all_spec in H.
+  induction H; simpl; auto.
+Qed.
+
+Theorem extend_all_fails_iff : forall (css : list (csamples T)) n,
+  extend_all T zero css n = None <->
+  exists cs, In cs css /\ n < lenz (cs_amp T cs).
+Proof.
+  induction css as [|cs r IH]; intros n; simpl.
+  - split; [discriminate|intros (cs & [] & _)].
+  - destruct (extend T zero cs n) as [c|] eqn:E.
+    + destruct (extend_all T zero r n) as [r'|] eqn:ER.
+      * split; [discriminate|]. intros (x & [<-|Hin] & Hx).
+        -- apply extend_fails_iff in Hx. congruence.
+        -- assert (HN : extend_all T zero r n = None) by (apply IH; eauto). congruence.
+      * split; auto. intros _. destruct (proj1 (IH n) ER) as (x & Hin & Hx). eauto.
+    + split; auto. intros _. exists cs. split; auto. now apply extend_fails_iff.
+Qed.
+
 (** the padding detuning is the off-detuning exactly when the channel is
     still in EOM mode (its last EOM block has no end) *)
 Theorem open_off_spec : forall (c : chan) off,
